@@ -146,6 +146,74 @@ func (fv *FuncVer) checkEnsures(st *State, res []Val) {
 		g := fv.evalBool(env, cl.Expr)
 		fv.oblige(st, "ensures["+label+"]", "", token.NoPos, g, "postcondition: "+cl.Text)
 	}
+	fv.checkFrame(st, env)
 	// reachability of a normal return (vacuity guard)
 	fv.addCover(st, "return", "some normal return is reachable")
+}
+
+
+// checkFrame: a function with an `assigns` clause must leave every heap object that existed at
+// entry, every ghost and every map outside that clause exactly as it was (frame obligations).
+func (fv *FuncVer) checkFrame(st *State, env *SpecEnv) {
+	as, ok := fv.block.Flags["assigns"]
+	if !ok {
+		return
+	}
+	allowed := map[string]bool{}
+	var pts []pointee
+	for _, k := range fv.parseAssigns(as, env) {
+		if k == "*" {
+			return
+		}
+		if strings.HasPrefix(k, "pointee|") {
+			pts = append(pts, fv.pointees[k])
+			continue
+		}
+		allowed[k] = true
+	}
+	nr0 := st.old.nextRef
+	var keys []string
+	for k := range st.heaps {
+		keys = append(keys, k)
+	}
+	sortStrings(keys)
+	for _, k := range keys {
+		cur := st.heaps[k]
+		old, ok := st.old.heaps[k]
+		if !ok || allowed[k] || sameTerm(cur, old) {
+			continue
+		}
+		r := fv.ctx.Fresh("sk_ref", SInt)
+		guard := And(ILe(IntLit(0), r), ILt(r, nr0))
+		for _, p := range pts {
+			if p.key == k {
+				guard = And(guard, Not(Eq(r, p.ref)))
+			}
+		}
+		goal := Implies(guard, Eq(Select(cur, r), Select(old, r)))
+		fv.oblige(st, "frame["+k+"]", "", token.NoPos, goal, "objects of "+k+" that existed at entry are unchanged (assigns "+as+")")
+	}
+	var gks []string
+	for k := range st.globals {
+		if strings.HasPrefix(k, "ghost:") {
+			gks = append(gks, k)
+		}
+	}
+	sortStrings(gks)
+	for _, k := range gks {
+		cur := st.globals[k]
+		old, ok := st.old.globals[k]
+		if !ok || allowed[k] || sameTerm(cur, old) {
+			continue
+		}
+		fv.oblige(st, "frame["+k+"]", "", token.NoPos, Eq(cur, old), k+" is unchanged (assigns "+as+")")
+	}
+}
+
+func sortStrings(s []string) {
+	for i := 1; i < len(s); i++ {
+		for j := i; j > 0 && s[j] < s[j-1]; j-- {
+			s[j], s[j-1] = s[j-1], s[j]
+		}
+	}
 }
